@@ -65,10 +65,21 @@ type simStep struct {
 	} `json:"at,omitempty"`
 	Task string                 `json:"task,omitempty"`
 	Arg  map[string]interface{} `json:"arg,omitempty"`
+	Rf   *bool                  `json:"rf,omitempty"`
 }
 
 func (c *simCluster) doStep(s simStep) (ev map[string]interface{}) {
 	c.evExtra = nil
+	// RoundFast: the outcome of `round.Duration() > promoteThreshold` in this step
+	thr := time.Hour
+	if s.Rf != nil && !*s.Rf {
+		thr = -1
+	}
+	for _, n := range c.nodes {
+		if n.up {
+			n.r.promoteThreshold = thr
+		}
+	}
 	switch s.K {
 	case "timeout":
 		ev = c.stepTimeout(s.N)
@@ -426,8 +437,74 @@ func (c *simCluster) stepRestart(id uint64) map[string]interface{} {
 	return map[string]interface{}{"kind": "restart", "n": id, "ok": n.up}
 }
 
+func parseAction(a string) Action {
+	switch a {
+	case "promote":
+		return Promote
+	case "demote":
+		return Demote
+	case "remove":
+		return Remove
+	case "forceRemove":
+		return ForceRemove
+	}
+	return None
+}
+
+// stepTask mirrors `case t := <-r.taskCh` of stateLoop.
 func (c *simCluster) stepTask(s simStep) map[string]interface{} {
-	return skipped("task steps not built yet")
+	n := c.nodes[s.N]
+	if n == nil || !n.up {
+		return skipped("node down")
+	}
+	var t Task
+	ev := map[string]interface{}{"kind": s.Task, "n": s.N}
+	switch s.Task {
+	case "changeConfig":
+		if n.r.state != Leader {
+			return skipped("not leader")
+		}
+		conf := Config{Nodes: map[uint64]Node{}, Index: n.r.configs.Latest.Index, Term: n.r.configs.Latest.Term}
+		list, _ := s.Arg["nodes"].([]interface{})
+		for _, x := range list {
+			m := x.(map[string]interface{})
+			id := uint64(m["id"].(float64))
+			nd := Node{ID: id, Addr: simAddrOf(id), Voter: m["voter"].(bool), Action: parseAction(m["action"].(string))}
+			if old, ok := n.r.configs.Latest.Nodes[id]; ok {
+				nd.Addr, nd.Data = old.Addr, old.Data
+			}
+			conf.Nodes[id] = nd
+		}
+		t = ChangeConfig(conf)
+		ev["nodes"] = projCfg(conf).Nodes
+	case "takeSnapshot":
+		thr := uint64(0)
+		if v, ok := s.Arg["threshold"].(float64); ok {
+			thr = uint64(v)
+		}
+		t = TakeSnapshot(thr)
+	case "transfer":
+		target := uint64(0)
+		if v, ok := s.Arg["target"].(float64); ok {
+			target = uint64(v)
+		}
+		t = TransferLeadership(target, time.Hour)
+		ev["target"] = target
+	case "waitStable":
+		t = WaitForStableConfig()
+	default:
+		return skipped("unknown task " + s.Task)
+	}
+	st := &simTask{id: 1000 + len(c.tasks) + 1, kind: s.Task, node: s.N, inc: n.inc, t: t}
+	c.tasks = append(c.tasks, st)
+	ev["task"] = st.id
+	n.event(func() {
+		n.r.executeTask(t)
+		if n.r.state == Follower && n.f.electionAborted {
+			n.f.resetTimer()
+		}
+	})
+	return ev
 }
 
 // completed tasks since the last record
